@@ -4,8 +4,8 @@ CONSTANTS
   Peers = {1, 2, 3}
   MaxEpoch = 2
   Umasks = {18, 2, 63, 0}
-  DkgDbPerm = 432
+  DkgDbPerm = 384
   ChainDbPerm = 432
-  PreModes = {420, 438, 384}
+  PreModes = {420, 438, 384, 416}
   Depth = 14
 CHECK_DEADLOCK FALSE
